@@ -1,5 +1,5 @@
 (* Extraction of the C07 executable model (ExtrOcamlBasic only; N/positive/nat stay inductive types). *)
 From Coq Require Import NArith ZArith List Extraction ExtrOcamlBasic.
-From Kenlm Require Import C07.CountModel.
+From Kenlm Require Import C07.CountModel C07.CollapseStreamModel.
 Extraction Language OCaml.
-Extraction "extracted/c07_model.ml" count_corpus corpus_grams Z.of_N Z.to_N N.of_nat N.to_nat.
+Extraction "extracted/c07_model.ml" count_corpus corpus_grams collapse_block mark Z.of_N Z.to_N N.of_nat N.to_nat.
